@@ -355,6 +355,14 @@ class TreeLikelihoodModel(CallableModel):
 
         return log_p
 
+    def _root_partials_underflow(self) -> bool:
+        """Check whether the site likelihoods of the last (unscaled) pass fell
+        below the smallest normal number: such values are finite but have lost
+        precision, like an infinite log likelihood they require rescaling."""
+        root_partials = self.partials[self.tree_model.postorder[-1][0]]
+        tiny = torch.finfo(root_partials.dtype).tiny
+        return bool(torch.any(torch.amax(root_partials, dim=(-3, -2)) < tiny))
+
     def calculate_with_tip_partials(self, mats, frequencies, probs):
         if self.rescale:
             log_p = calculate_treelikelihood_discrete_rescaled(
@@ -375,7 +383,7 @@ class TreeLikelihoodModel(CallableModel):
                 probs,
             )
 
-            if torch.any(torch.isinf(log_p)):
+            if torch.any(torch.isinf(log_p)) or self._root_partials_underflow():
                 self.rescale = True
                 log_p = calculate_treelikelihood_discrete_safe(
                     self.partials,
@@ -408,7 +416,7 @@ class TreeLikelihoodModel(CallableModel):
                 probs,
             )
 
-            if torch.any(torch.isinf(log_p)):
+            if torch.any(torch.isinf(log_p)) or self._root_partials_underflow():
                 self.rescale = True
                 log_p = calculate_treelikelihood_tip_states_discrete_rescaled(
                     self.partials,
